@@ -20,12 +20,14 @@ CONSTANTS
   LegacyPairs, \* pairs that may carry a grant in a legacy start state
   Legacy,      \* set of BOOLEAN: start states with a pre-0.14 allowance table
   GenMode,     \* TRUE: keep the schedule, include failing calls
-  GenDepth     \* schedule length at which a behaviour is printed (Gen mode)
+  GenDepth,    \* schedule length at which a behaviour is printed (Gen mode)
+  GenFail,     \* Gen mode: failing calls are part of the alphabet (random walks); FALSE for the sampled BFS
+  SampleK      \* sampled BFS: every SampleK-th distinct state's path is printed
 
 VARIABLES sched, cfgv
 
 mcvars == <<vars, sched, cfgv>>
-View == <<sv_, IF GenMode THEN Len(sched) ELSE 0>>
+View == <<sv_, IF GenMode /\ GenFail THEN Len(sched) ELSE 0>>
 
 Users == Addr \ {"k1"}
 Payloads == {"p1"}
@@ -61,7 +63,7 @@ Call(e, action) ==
      /\ UNCHANGED <<now, maxAmt, cfgv>>
      /\ migrated' = migrated
      /\ sched' = IF GenMode THEN Append(sched, e) ELSE sched
-  \/ /\ GenMode /\ ~ENABLED action
+  \/ /\ GenMode /\ GenFail /\ ~ENABLED action
      /\ ev' = [e EXCEPT !.ok = FALSE]
      /\ UNCHANGED <<sv_, cfgv>>
      /\ sched' = Append(sched, e)
@@ -142,5 +144,9 @@ MC_InitBalsGen == {b \in [Addr -> 0..3] : SumOver(Addr, b) <= 4}
 \* ---------------------------------------------------------------- schedule output (Gen mode)
 EmitSchedule ==
   (GenMode /\ Len(sched) = GenDepth) =>
+     PrintT(<<"SCHED", ToJson([cfg |-> cfgv, steps |-> sched])>>)
+\* sampled breadth-first generation: the BFS path of every SampleK-th distinct state of the model
+EmitSampled ==
+  (GenMode /\ ~GenFail /\ Len(sched) > 0 /\ TLCGet("distinct") % SampleK = 0) =>
      PrintT(<<"SCHED", ToJson([cfg |-> cfgv, steps |-> sched])>>)
 =============================================================================
